@@ -67,6 +67,8 @@ def gen(rng, cid, tier):
     threads_ = []
     silenced_thread = rng.randrange(nth) if nth > 1 and rng.random() < 0.5 else None
     total = 0
+    # a single line that is itself larger than the whole 1 MiB budget: never fits, whatever is queued (dropped and counted)
+    oversize = rng.random() < 0.25
     for t in range(nth):
         plan = []
         nlines = rng.randint(20, 150) if mode != "gated_big" else rng.randint(10, 40)
@@ -82,6 +84,8 @@ def gen(rng, cid, tier):
                 ln = rng.choice([1000, 30000, 100000, 300000])
             else:
                 ln = rng.randint(8, 120) if r < 0.7 else rng.randint(200, 5000) if r < 0.95 else rng.choice([40000, 150000, 300000])
+            if oversize and rng.random() < 0.03:
+                ln = rng.choice([MIB + 1, MIB + 4096, 2 * MIB, 3 * MIB + 17])
             plan.append({"op": "log", "len": ln, "expect_silenced": disabled})
             total += ln
             if rng.random() < 0.05:
@@ -186,6 +190,7 @@ def judge(case, results):
         v.count("lines_dropped_reported", dropped)
         v.count("max_backlog_bytes_seen", 0)
         v.stats["max_backlog_bytes_seen"] = max(v.stats["max_backlog_bytes_seen"], peak)
+        v.count("lines_larger_than_the_budget", sum(1 for p in scn["threads"] for x in p if x["op"] == "log" and x["len"] > MIB and not x["expect_silenced"]))
         v.count("gate_blocks", r["out"]["gate_blocks"])
         v.count("runs")
         if len(scn["threads"]) >= 2 and (r["out"]["gate_blocks"] or dropped):
